@@ -67,7 +67,9 @@ CLAIMED = {
          "Props/Workqueue.lean): work_exactly_once, work_fifo (a destroy work queued behind resize works runs after each of them), "
          "flush_waits_for_all_prior, completion_lifetime, worker_no_lost_wakeup + waker_not_stuck / measure (TSO store buffers for the "
          "plain futex := 0 stores), stop_after_drain, destroy_requires_empty; liveness queued_work_eventually_runs, "
-         "flush_eventually_returns (fairness explicit); tie: the real workqueue.c under the shim (harness/scen/wq.c, Driver/Wq.lean).",
+         "flush_eventually_returns (fairness explicit); tie: the real workqueue.c under the shim (harness/scen/wq.c, Driver/Wq.lean)."
+         " Source-translator tie (DESIGN 10.15) for the work queue part: urcu_workqueue_queue_work, pause / resume, the worker's PAUSE branch, splice and batch iteration are translated from the C text and proved against the Wq model's local projections (Props/SrcWq.lean, Props/SrcWq2.lean); the worker's futex wait / wake in Props/SrcFutex.lean."
+,
     note="Trusted: Lean kernel; grace period as a counter; SC in the transition system; shims on pthread_create and "
          "urcu_workqueue_queue_work; destroy API contract. Observation recorded in DESIGN: __cds_lfht_resize_lazy_launch queues the work "
          "before storing resize_initiated=1 (auto-resize can stall); outside the listed properties.",
@@ -114,7 +116,9 @@ CLAIMED = {
          "registration_churn_must_stop (machine-checked infinite run showing that proviso is necessary); "
          "qsbr_synchronize_rcu_eventually_returns; on the handshake models (Props/LiveC02.lean) leader_eventually_woken, "
          "readers_eventually_done, gp_eventually_completes, waiter_eventually_returns, qsbr_leader_eventually_woken. Partial: bp's "
-         "init_lock is outside the lock model; the scan-loop model and the futex-handshake model are composed by interface.",
+         "init_lock is outside the lock model; the scan-loop model and the futex-handshake model are composed by interface."
+         " Source-translator tie (DESIGN 10.15): the C text of wait_gp (memb, mb, qsbr), urcu_common_wake_up_gp / urcu_qsbr_wake_up_gp and of the wait-node functions (urcu_adaptative_busy_wait / wake_up, urcu_wait_add) is translated into Lean IR on every run and proved to refine the waiter / waker local projections of the handshake models (Props/SrcFutex.lean) under the futex system-call contract."
+,
     note="Trusted: Lean kernel; x86-TSO + futex + sys_membarrier contracts; fair scheduler for 'eventually'; the abstract handshake "
          "models are related to the code by the event-level replay on explored schedules only.",
     technique="Lean 4 inductive-invariant proofs (TSO futex handshake, wait-node hand-over) + event-level trace refinement with fault injection and systematic preemption sweep",
@@ -131,7 +135,9 @@ CLAIMED = {
          "signals: registration_signal_atomic, never_registered_twice, registry_lock/init_lock_never_self_deadlocks, signal_safe (+ the "
          "Lean record of the repaired exit-path deadlock). Tie for bp: the real urcu-bp.c with mmap/mremap/munmap/pthread_sigmask/"
          "mutex/key functions interposed, up to 140 simulated and 70 real threads, mremap outcomes forced, SIGUSR1 handlers using RCU "
-         "raised around every interposed call; every arena decision replayed on the model (Driver/BpArena.lean).",
+         "raised around every interposed call; every arena decision replayed on the model (Driver/BpArena.lean)."
+         " Source-translator tie (DESIGN 10.15): rcu_register_thread / rcu_unregister_thread of memb and qsbr are translated from the C text and proved to be L2's reg / unreg under the registry lock (qsbr: online after the unlock, offline before the lock); for bp the signal-mask / init_lock / registry_lock bracket of urcu_bp_register / unregister and the exact effects of cleanup_thread and expand_arena are proved (Props/SrcReg.lean)."
+,
     note="Trusted: as C01; bp arena: slot identity stands for the address (chunks only appended, successful in-place mremap does not move: OS "
          "contract, real pointers of live readers compared after every section); each rcu_registry_lock / init_lock critical section is "
          "one atomic model step; handlers only run rcu_read_lock/unlock.",
@@ -160,7 +166,7 @@ CLAIMED = {
          "of the C text (Driver/Gp.lean) which replays the induced labels on the proven model. TSO-only failures are reported with the "
          "Lean-checked necessity witness (Neg/C01.lean). Configurations run: memb+membarrier, memb fallback, mb, qsbr, bp with and without "
          "sys_membarrier. Partial: the 32-bit two-phase qsbr variant is not built here."
-         " Source-translator tie (DESIGN 10.15): the C text of rcu_read_lock/unlock/read_ongoing of memb, mb, bp, of the qsbr quiescent_state / offline / online, and of synchronize_rcu + wait_for_readers + urcu_common_reader_state + wait_gp + smp_mb_master (memb, mb) is translated into Lean IR on every run (harness/gen/gen_src.py -> Gen/Src.lean) and PROVED, for every oracle / schedule prefix, to refine the thread-local projection of the TSO model (Props/SrcRead.lean, Props/SrcSync.lean; the wait-queue batching around the grace period enters as the explicit hypothesis QueueQuiet, the registry lists through an explicit list-oracle discipline); the IR is validated against the compiled code by replaying the harness traces on it (Driver/Src.lean, incl. whole synchronize_rcu calls).",
+         " Source-translator tie (DESIGN 10.15): the C text of rcu_read_lock/unlock/read_ongoing of memb, mb, bp, of the qsbr quiescent_state / offline / online, and of synchronize_rcu + wait_for_readers + urcu_common_reader_state + wait_gp + smp_mb_master (memb, mb) is translated into Lean IR on every run (harness/gen/gen_src.py -> Gen/Src.lean) and PROVED, for every oracle / schedule prefix, to refine the thread-local projection of the TSO model (Props/SrcRead.lean, Props/SrcSync.lean; also without the QueueQuiet hypothesis: the wait-queue callees pass a syntactic quietness check evaluated on the generated bodies; bp and qsbr synchronize_rcu in Props/SrcSync2.lean; the registry lists enter through an explicit list-oracle discipline); the IR is validated against the compiled code by replaying the harness traces on it (Driver/Src.lean, incl. whole synchronize_rcu calls).",
     note="Trusted: Lean kernel; x86-TSO machine and sys_membarrier contract; the event-level transliteration is validated on the "
          "explored schedules only (not proved to refine the abstract model); harness runs are SC; compiler barriers checked for "
          "presence only; 64-bit counters do not wrap.",
@@ -277,7 +283,9 @@ CLAIMED = {
          "Props/Workqueue.lean): pause_quiescent (once pause_worker has returned the worker is at its pause spin with nothing in hand), "
          "pause_stays, resume_restarts / resume_returns, child_nothing_in_hand, create_worker_state, queued_work_eventually_runs in the "
          "child; observation child_worker_never_sleeps_if_futex_inherited_negative (performance only, reproduced on the real code). "
-         "Partial: the rculfhash atfork glue (nesting counter) by the ForkWq model + oracles.",
+         "Partial: the rculfhash atfork glue (nesting counter) by the ForkWq model + oracles."
+         " Source-translator tie (DESIGN 10.15): call_rcu_before_fork / after_fork_parent (PAUSE every helper of the list, wait for PAUSED, no other write to a helper's flags), urcu_bp_before_fork / after_fork_parent / after_fork_child (saved mask restored) and urcu_bp_prune_registry are translated from the C text and proved against the Fork model's local projections (Props/SrcFork.lean); the work queue's pause quiescence in Props/SrcWq.lean."
+,
     note="Trusted: Lean kernel; fork() clones only the calling thread with a copy of memory; documented preconditions as guards (handlers "
          "called outside read-side sections; other application threads idle and unregistered at the fork for non-bp flavors); callbacks "
          "terminate and do not call rcu_barrier or helper management; L1 ⊑ L2 on explored schedules only. Observations outside the "
@@ -303,7 +311,9 @@ CLAIMED = {
          "call_rcu_mutex - a statement artefact). Flavors run: memb (with / without sys_membarrier), mb, qsbr, bp (with / "
          "without); in qsbr the helper's register / thread_offline / thread_online / unregister and an online caller's quiescent "
          "states are matched event by event and replayed on the model (Cfg.qsbr: an online thread is an open section since its last "
-         "quiescent state).",
+         "quiescent state)."
+         " Source-translator tie (DESIGN 10.15): _call_rcu, call_rcu and the whole call_rcu_thread loop are translated from the C text on every run and proved against the CallRcu model's local projections (Props/SrcCallRcu.lean: in every iteration the invoked callbacks are exactly the spliced batch, in order, each once, after that iteration's synchronize_rcu); call_rcu_wait / wake_up in Props/SrcFutex.lean."
+,
     note="Trusted: Lean kernel; GpSpec (C01) as synchronize_rcu; wfcqueue FIFO / atomic enqueue (C10); x86-TSO + futex contract; caller "
          "obligations of the API as model guards; L1 transliteration ⊑ L2 on explored schedules only.",
     technique="Lean 4 inductive invariants (placement, timing, order, destruction protocol, sleep/wake handshake; one lemma per label) + event-level trace refinement of the real source under the cooperative runtime with fault injection and one-preemption sweeps",
@@ -321,7 +331,9 @@ CLAIMED = {
          "(Props/LiveC04E2E.lean, CallRcu.BFairEnv): barrier_eventually_returns_from_call - rcu_barrier() returns on every run with "
          "strongly fair threads (lock acquisition), weakly fair helpers, ending sections and terminating user callbacks; the marker "
          "liveness is C03's end-to-end theorem on the projected run. All flavors run; qsbr: "
-         "rcu_barrier's was_online / offline / online idiom matched event by event for online and offline callers.",
+         "rcu_barrier's was_online / offline / online idiom matched event by event for online and offline callers."
+         " Source-translator tie (DESIGN 10.15): _rcu_barrier_complete / free_completion (completion and reference counting) and the completion futex wait / wake are translated from the C text and proved against CallRcu/Barrier's local projections (Props/SrcCallRcu.lean, Props/SrcFutex.lean); rcu_barrier's own list loops are not."
+,
     note="Trusted: as C03; the barrier layer reaches C03 only through the hooks (base_reach proved).",
     technique="Lean 4 invariants (bookkeeping / refcount / handshake per label; list-decomposition proof of the marker-FIFO invariant) + the C03 trace refinement",
     design_ref="§4 C04", engine="callrcu"),
@@ -342,7 +354,9 @@ CLAIMED = {
          "lfht_linearizable_partial gives the points (insertion CAS, REMOVED fetch-or, replace CAS, the deciding load, incl. lookup "
          "'not found'). Hypothesis: per (key, hash) unique adds only or plain adds only (mixed use is genuinely not linearizable for "
          "'not found'). Partial: entries for calls still pending at the end are legal but not attributed to a call; "
-         "next_duplicate / first / next are covered by resident_found_traversal and C06, not by the linearizability theorem.",
+         "next_duplicate / first / next are covered by resident_found_traversal and C06, not by the linearizability theorem."
+         " Source-translator tie (DESIGN 10.15): the lock-free core of src/rculfhash.c (add / add_unique / add_replace / replace / del / lookup / iteration / gc_bucket, 40 functions) is translated into Lean IR on every run (pointer tag bits modelled) and replayed against the compiled code's traces (Driver/Src.lean); _cds_lfht_del and _cds_lfht_gc_bucket are proved to refine the Lfht/Conc model's local projection (Props/SrcLfht.lean)."
+,
     note="Trusted: Lean kernel; SC = x86-TSO for this structure (every shared mutation of a next word is a locked RMW; private "
          "initialisation folded into the publishing CAS); abstract GpSpec grace periods; node identifiers never reused in the model; "
          "L1 ⊑ L2 on explored schedules only; split counters / resize_target arbitration belong to C09.",
@@ -373,7 +387,9 @@ CLAIMED = {
          "model's reclaim / tblFree labels are enabled only after its grace period. C07_full_holds additionally: "
          "del_returns_unlinked (gc_bucket postcondition: when the owner's call returns the node is not in the ghost list), "
          "reclaim_safe (layer S: every pointer a thread holds inside a section is linked or was unlinked after the section began; "
-         "uaf = false in every reachable state, covering bucket tables freed by a shrink) and no_step_crashes.",
+         "uaf = false in every reachable state, covering bucket tables freed by a shrink) and no_step_crashes."
+         " Source-translator tie (DESIGN 10.15): _cds_lfht_del (or REMOVED, gc pass of the bucket, ownership xchg, return value) and _cds_lfht_gc_bucket are translated from the C text on every run and proved to refine the Lfht/Conc model's local projection (Props/SrcLfht.lean); the IR is replayed against the compiled code's traces."
+,
     note="Trusted: as C05.",
     technique="Lean 4 inductive invariants (flag automaton of one next word, grace-period window of bucket removal) + event-level trace refinement with ownership and quarantine oracles",
     design_ref="§4 C07", engine="lfhtc"),
@@ -381,7 +397,9 @@ CLAIMED = {
     text="Lean 4 theorems poll_sound / poll_monotone / poll_no_stuck / poll_progress (inductive invariant over all operation "
          "interleavings, any number of readers and handles) on an executable model of urcu-poll-impl.h; the model is tied to "
          "the current source by replaying generated operation sequences on the real file and on the model (every returned "
-         "handle, boolean and re-queue decision compared) plus an independent implementation oracle; and the same real file under the cooperative runtime with several poller threads, readers and an abstract helper, preempted at every mutex acquisition/release (operations ordered by the ticket taken when the mutex is acquired), which exposes accesses moved out of the critical section; liveness with explicit hypotheses: poll_eventually_true, poll_eventually_true_of_gp (Props/LiveC14.lean). Floor = target (DESIGN §4 C14).",
+         "handle, boolean and re-queue decision compared) plus an independent implementation oracle; and the same real file under the cooperative runtime with several poller threads, readers and an abstract helper, preempted at every mutex acquisition/release (operations ordered by the ticket taken when the mutex is acquired), which exposes accesses moved out of the critical section; liveness with explicit hypotheses: poll_eventually_true, poll_eventually_true_of_gp (Props/LiveC14.lean). Floor = target (DESIGN §4 C14)."
+         " Source-translator tie (DESIGN 10.15): start_poll_synchronize_rcu, poll_state_synchronize_rcu and urcu_poll_worker_cb are translated from the C text on every run and proved equal to the Poll model's step (Props/SrcPoll.lean)."
+,
     note="Trusted: Lean kernel (axioms propext/Classical.choice/Quot.sound only); call_rcu and the grace period are the abstract "
          "C03/C01 specifications; each API body is atomic under poll_worker_gp_state.lock (lock discipline is observed by the "
          "harness, not proved); counters do not wrap within 2^63 grace periods; liveness needs C03's helper liveness + fairness.",
